@@ -276,3 +276,46 @@ Definition out_eqb (a b : out) : bool :=
   | OSync c, OSync c' => Bool.eqb c c'
   | _, _ => false
   end.
+
+(* ------------------------------------------------------------------ case-file evaluation *)
+Fixpoint run_states (s : state) (ops : list op) : list (state * out) :=
+  match ops with
+  | [] => []
+  | o :: r => let '(s1, x) := step s o in (s1, x) :: run_states s1 r
+  end.
+
+Fixpoint list_eqb {A} (e : A -> A -> bool) (a b : list A) : bool :=
+  match a, b with
+  | [], [] => true
+  | x :: a', y :: b' => e x y && list_eqb e a' b'
+  | _, _ => false
+  end.
+
+(* a history observed on the implementation: the ops, the result of each, and snapshots
+   (index of the op after which it was taken, primary content, cache content) *)
+Definition history_case := (list op * list out * list (nat * db * db))%type.
+
+Definition history_ok (c : history_case) : bool :=
+  let '(ops, outs, snaps) := c in
+  let tr := run_states init ops in
+  list_eqb out_eqb (map snd tr) outs &&
+  forallb (fun e => let '(i, p, c) := e in
+                    match nth_error tr i with
+                    | Some (s, _) => same_db (primary s) p && same_db (cache s) c
+                    | None => false
+                    end) snaps.
+
+(* one request to a handler of class h in mode m.  The user's profile is 11 in the primary and
+   an older 10 in the cache (or absent from both); the request would store 12.  Observed: what
+   the primary holds for the user afterwards (0 = nothing), whether the cache changed,
+   whether the request was served. *)
+Definition handler_case := (hkind * mode * bool * N * bool * bool)%type.
+
+Definition handler_ok (c : handler_case) : bool :=
+  let '(h, m, present, res, cache_changed, served) := c in
+  let s0 := mk_state (mk_db (if present then [(1%N, 11%N)] else []) [])
+                     (mk_db (if present then [(1%N, 10%N)] else []) []) 0 m in
+  let '(s1, o) := step s0 (Handler h 1%N 12%N) in
+  N.eqb (match aget ukey_eqb 1%N (profiles (primary s1)) with Some b => b | None => 0%N end) res &&
+  Bool.eqb (negb (same_db (cache s1) (cache s0))) cache_changed &&
+  Bool.eqb (match o with OServed => true | _ => false end) served.
